@@ -24,7 +24,10 @@ from common import VERIF, qlit, qlist, coq_string, dyadic, coqc, coqc_many, pars
 THEOREMS = ["C16_spectrometer_history_independent", "C16_spectrometer_reachable_valid", "C16_czerny_turner_history_independent",
             "C16_polychromator_history_independent", "C16_range_covers_pixels", "C16_range_covers_filters",
             "C16_bin_width_bound", "C16_bin_width_bound_float", "C16_bin_width_bound_polychromator",
-            "C16_czerny_turner_pixels_increasing", "C16_calibrate_conserves", "C16_spectrum_integral_additive"]
+            "C16_czerny_turner_pixels_increasing", "C16_calibrate_conserves", "C16_spectrum_integral_additive",
+            "C16_round53_relative_error", "C16_bin_width_bound_double", "C16_bin_width_bound_polychromator_float",
+            "C16_bin_width_bound_polychromator_double", "C16_filter_range", "C16_trapezoid_range_exact",
+            "C16_calibrate_call_outcomes"]
 
 EPS15 = 1.e-15
 D2R = float(np.pi / 180.0)
@@ -359,25 +362,33 @@ def gen_mbpp(rng):
 # ---------------------------------------------------------------------------------------------
 # Spectrometer histories
 # ---------------------------------------------------------------------------------------------
+DEFAULT_PIPELINE_NAMES = {"Spectral Radiance Pipeline", "Radiance Pipeline"}     # raysect's 'name or <default>'
+
+
 def do_create_pipelines(inst, enc, prefix, ops, outs, log):
-    """create_pipelines() is a second entry point that fills both pipeline caches (instrument.py:68-79); for the
-    model it is a read of pipeline_classes followed by a read of pipeline_kwargs"""
+    """create_pipelines() (instrument.py:65-79) is an operation of the model (gop CreatePipelines): what it returns is
+    encoded as the list of (pipeline class, name, filter) of the pipelines actually built"""
     st, v = call(inst.create_pipelines)
     STATS["op:create_pipelines"] += 1
     log.append("create_pipelines()")
+    ops.append("%s CreatePipelines" % prefix)
     if st == "err":
-        ops.append("%s GetClasses" % prefix)
         outs.append("OErr %s" % v)
         return
-    ops += ["%s GetClasses" % prefix, "%s GetKwargs" % prefix]
-    outs.append(enc.cl([type(p) for p in v]))
-    kw = do_get(inst, enc, 3)
-    kws = inst.pipeline_kwargs
-    # raysect replaces an empty name by the pipeline's default name
-    if len(kws) != len(v) or any(d["name"] and p.name != d["name"] for p, d in zip(v, kws)) or \
-            any(("filter" in d) and p.filter is not d["filter"] for p, d in zip(v, kws)):
-        kw = "OErr ErrOther"
-    outs.append(kw)
+    items = []
+    for p in v:
+        if type(p) not in enc.cls:
+            outs.append("OErr ErrOther")
+            return
+        name = "" if p.name in DEFAULT_PIPELINE_NAMES else p.name
+        f = "None"
+        if enc.cls[type(p)] == "Radiance0D":
+            if id(p.filter) not in enc.fid:
+                outs.append("OErr ErrOther")
+                return
+            f = "(Some %s)" % zl(enc.fid[id(p.filter)])
+        items.append("(%s, {| kw_name := %s; kw_filter := %s |})" % (enc.cls[type(p)], cstr(name), f))
+    outs.append("OPipes [%s]" % "; ".join(items))
 
 
 def pick_past(rng, past):
@@ -733,12 +744,13 @@ def ct_history(rng, mod, enc, quick):
         elif r < 0.36:
             do_create_pipelines(inst, enc, "CtGet", ops, outs, log)
         elif r < 0.39:
-            # wavelength_to_pixel is read-only here (the subclass re-declares the property without a setter)
-            st, v = call(lambda: setattr(inst, "wavelength_to_pixel", ([400., 401., 402.],)))
+            # wavelength_to_pixel is read-only here (the subclass re-declares the property without a setter): model op
+            va, _ = gen_w2p(rng, allow_bad=False)
+            st, v = call(lambda: setattr(inst, "wavelength_to_pixel", form_w2p(rng, va)))
             STATS["op:assignment to a read-only attribute"] += 1
+            ops.append("CtAssignW2p %s" % qarrs(va))
+            outs.append("OErr %s" % v if st == "err" else "OUnit")
             log.append("wavelength_to_pixel=... (%s)" % (v if st == "err" else "ACCEPTED"))
-            if (st, v) != ("err", "ErrAttribute"):
-                side.append("assignment to CzernyTurnerSpectrometer.wavelength_to_pixel gave %r instead of AttributeError" % ((st, v),))
         elif r < 0.7:
             which = rng.choice(list(CT_SET))
             q = rng.random()
@@ -905,8 +917,9 @@ def filter_case(rng, mod):
     if st == "err":
         impl = "(Err %s)" % f
     else:
-        impl = "(Ok (%s, %s, %s))" % (qlit(float(f.min_wavelength)), qlit(float(f.max_wavelength)), qlit(float(f.window)))
-        if float(f.central_wavelength) != 0.5 * (float(f.max_wavelength) + float(f.min_wavelength)) or f.name != "f":
+        impl = "(Ok (%s, %s, %s, %s))" % (qlit(float(f.min_wavelength)), qlit(float(f.max_wavelength)), qlit(float(f.window)),
+                                        qlit(float(f.central_wavelength)))
+        if f.name != "f":
             impl = "(Err ErrOther)"
     return {"case": "filter_eqb (%s) %s" % (filter_model_txt(spec, 0, "f"), impl), "spec": spec,
             "ok": st == "ok", "kind": "filter"}
@@ -1195,11 +1208,15 @@ def cal_cases(rng, mod, Spectrum, quick):
             sp.samples[:] = 0.0
             sp.samples[rng.randrange(bins)] = dyadic(rng, 1, 50, 3)
         if rng.random() < 0.1:
-            # second-order call site: the isinstance guard (:151)
+            # second-order call site: the isinstance guard (:151), an outcome of the model's calibrate_call
             st0, v0 = call(lambda: inst.calibrate(rng.choice([np.array(sp.samples), list(sp.samples), None, 1.0])))
             STATS["calibrate:non-Spectrum argument"] += 1
-            if (st0, v0) != ("err", "ErrType"):
-                side.append("calibrate(<not a Spectrum>) gave %r instead of TypeError" % ((st0, v0),))
+            p0 = "{| spp_mbpp := %s; spp_w2p := %s; spp_name := %s |}" % (qlit(mbpp), qarrs(w2p), cstr("cal"))
+            impl0 = "(Err %s)" % v0 if st0 == "err" else "(Ok %s)" % qarrs(v0)
+            out.append({"case": "check_cal_arg %s ANotSpectrum %s" % (p0, impl0), "kind": "calibrate", "style": "not-a-Spectrum",
+                        "samples": "-", "w2p": w2p, "smin": 0.0, "smax": 0.0, "bins": 0, "ys": [], "xs": [], "st": "type",
+                        "step": step, "scale": s, "val": v0 if st0 == "err" else "accepted", "integ": None,
+                        "imin": 0.0, "imax": 0.0, "side": []})
         st, val = call(lambda: inst.calibrate(sp))
         imin, imax = float(inst.min_wavelength), float(inst.max_wavelength)
         xs = [float(x) for x in sp.wavelengths]
@@ -1223,6 +1240,8 @@ def cal_cases(rng, mod, Spectrum, quick):
 def cal_search(h):
     """value*width == the spectrum's integral over the pixel; sum over adjacent pixels == integral over their union"""
     fails = []
+    if h["st"] == "type":
+        return fails                   # not a Spectrum: outside the property's quantifier; tied by the correspondence
     covers = h["smin"] <= h["imin"] and h["smax"] >= h["imax"]
     if h["st"] != "ok":
         if covers:
@@ -1420,16 +1439,6 @@ def run(ctx):
                           "the executable property found no failing input" % (h["kind"], code),
                           dict(replay_of(h), first_disagreeing_call=code), found=False)
 
-    # guards of the anchored code that lie outside the property's quantifier and have no model operation
-    # (TypeError of calibrate for a non-Spectrum, AttributeError of the read-only Czerny-Turner pixel arrays)
-    side = [(i, m) for i, h in enumerate(hist) for m in h.get("side", [])]
-    ctx.obligation("expected rejections outside the model (%d calls)" % (STATS["calibrate:non-Spectrum argument"]
-                   + STATS["op:assignment to a read-only attribute"]), "correspondence", not side, str(side[:3]))
-    if side and not search_fails:
-        i, m = side[0]
-        ctx.violation("c16-side:%s" % hist[i]["kind"], m + "; the executable property found no failing input",
-                      replay_of(hist[i]), found=False)
-
     # ---- evidence -------------------------------------------------------------------------------
     kinds = {}
     for h in hist:
@@ -1454,7 +1463,7 @@ def run(ctx):
         "distribution": {"cases_by_kind": kinds, "calls_in_histories": n_ops, "rejected_setter_calls": n_rej, "reads": n_reads,
                          "histories_with_setter_after_read": stale, "degenerate_final_states(no spectra/filters)": n_degenerate,
                          "calibrate_alignment_styles": cal_styles,
-                         "calibrate_error_cases(range too narrow)": sum(1 for h in cal if h["st"] != "ok"),
+                         "calibrate_error_cases(range too narrow)": sum(1 for h in cal if h["st"] == "err"),
                          "filter_error_cases": sum(1 for h in hist if h["kind"] == "filter" and not h["ok"]),
                          "search_cases": n_search, "corpus_files": len(corpus),
                          "input_classes": dict(sorted(STATS.items()))},
